@@ -594,6 +594,45 @@ impl SerializableValue {
     }
 
     /// Parse a function source string into a SerializableLambdaDef
+    /// A lambda body is parsed without via / into / where, so "(x) => a via f" reads as
+    /// ((x) => a) via f. Function source is one function whose body runs to the end of
+    /// the text: give the operators that follow the lambda back to its body.
+    fn extend_lambda_body(expr: crate::ast::SpannedExpr) -> crate::ast::SpannedExpr {
+        use crate::ast::{Expr, Spanned};
+
+        let Spanned { node, span } = expr;
+        match node {
+            Expr::BinaryOp { op, left, right } => match Self::extend_lambda_body(*left) {
+                Spanned {
+                    node: Expr::Lambda { args, body },
+                    ..
+                } => Spanned::new(
+                    Expr::Lambda {
+                        args,
+                        body: Box::new(Spanned::new(
+                            Expr::BinaryOp {
+                                op,
+                                left: body,
+                                right,
+                            },
+                            span,
+                        )),
+                    },
+                    span,
+                ),
+                left => Spanned::new(
+                    Expr::BinaryOp {
+                        op,
+                        left: Box::new(left),
+                        right,
+                    },
+                    span,
+                ),
+            },
+            node => Spanned::new(node, span),
+        }
+    }
+
     fn parse_function_source(source: &str) -> Result<SerializableLambdaDef> {
         use crate::expressions::pairs_to_expr;
         use crate::parser::get_pairs;
@@ -608,7 +647,7 @@ impl SerializableValue {
                 && let crate::parser::Rule::expression = inner_pair.as_rule()
             {
                 // Parse the expression to get an AST
-                let expr = pairs_to_expr(inner_pair.into_inner())?;
+                let expr = Self::extend_lambda_body(pairs_to_expr(inner_pair.into_inner())?);
 
                 // Check if it's a lambda
                 if let crate::ast::Expr::Lambda { args, body } = expr.node {
